@@ -395,6 +395,9 @@ func (d *V2) do(op Op) Resp {
 		if op.RetOnFail {
 			in.ReturnValuesOnConditionCheckFailure = types.ReturnValuesOnConditionCheckFailureAllOld
 		}
+		if op.RetVals != "" {
+			in.ReturnValues = types.ReturnValue(op.RetVals)
+		}
 		_, err := c.PutItem(ctx, in)
 		return withCCF(err)
 	case KUpd:
@@ -417,6 +420,9 @@ func (d *V2) do(op Op) Resp {
 		}
 		if op.RetOnFail {
 			in.ReturnValuesOnConditionCheckFailure = types.ReturnValuesOnConditionCheckFailureAllOld
+		}
+		if op.RetVals != "" {
+			in.ReturnValues = types.ReturnValue(op.RetVals)
 		}
 		out, err := c.DeleteItem(ctx, in)
 		if err != nil {
@@ -449,6 +455,9 @@ func (d *V2) do(op Op) Resp {
 	case KScan:
 		in := &dynamodb.ScanInput{TableName: aws.String(op.Table), FilterExpression: op.FilterText(),
 			ExpressionAttributeNames: copyNames(op.Names), ExpressionAttributeValues: ItemToV2(op.Values), ExclusiveStartKey: ItemToV2(op.ESK)}
+		if op.ProjStr != nil {
+			in.ProjectionExpression = aws.String(*op.ProjStr)
+		}
 		if op.Index != "" {
 			in.IndexName = aws.String(op.Index)
 		}
